@@ -235,6 +235,173 @@ def _truediv_sym_int(op, a: SymbolicInt, b: int):
 
 
 # --------------------------------------------------------------------------
+# integers that remember the octets they were assembled from
+# --------------------------------------------------------------------------
+class OctetInt(SymbolicInt):
+    """SymbolicInt built big-endian from known (symbolic) octets.  Converting
+    it back to bytes of the same width returns those octets instead of a
+    div/mod re-derivation (identity: from_bytes/to_bytes are inverse)."""
+
+    def __init__(self, var, octets=()):
+        SymbolicInt.__init__(self, var)
+        self._vf_octets = tuple(octets)
+
+    def to_bytes(self, length=1, byteorder='big', *, signed=False):
+        octs = self._vf_octets
+        if byteorder == 'big' and not signed and length == len(octs) and length > 0:
+            STATS['octet_int'] = STATS.get('octet_int', 0) + 1
+            return bytes(list(octs))
+        return SymbolicInt.to_bytes(self, length, byteorder, signed=signed)
+
+
+def octets_of(v):
+    """known octets of an int value, or None"""
+    with NoTracing():
+        if isinstance(v, OctetInt):
+            return v._vf_octets
+    return None
+
+
+def make_octet_int(octets):
+    """big-endian int of a list of (symbolic) octets, remembering them"""
+    val = 0
+    for o in octets:
+        val = val * 256 + o
+    with NoTracing():
+        if isinstance(val, SymbolicInt):
+            return OctetInt(val.var, octets)
+    return val
+
+
+def _my_from_bytes(b, byteorder='big', *, signed=False):
+    r = int.from_bytes(b, byteorder, signed=signed)
+    with NoTracing():
+        wrap = (isinstance(r, SymbolicInt) and not isinstance(r, OctetInt) and byteorder == 'big'
+                and not signed and isinstance(b, BytesLike))
+    if wrap:
+        n = len(b)
+        if 0 < n <= 16:
+            octs = [b[i] for i in range(n)]
+            with NoTracing():
+                return OctetInt(r.var, octs)
+    return r
+
+
+# --------------------------------------------------------------------------
+# digit-run abstraction for  str(int)  /  int(str)  /  text equality
+# --------------------------------------------------------------------------
+class DigitCP(SymbolicInt):
+    """Code point 48 + (src // 10**pos) % 10 of the decimal rendering of the
+    non-negative symbolic int ``src`` which, on this path, has exactly ``n``
+    digits.  Remembering the provenance lets
+      * int(str(x))            return x           (identity, n digits known)
+      * str(x) == str(y)       become  x == y     (both have the same digit count)
+    instead of handing z3 nested div/mod-by-10 arithmetic."""
+
+    def __init__(self, var, src=None, pos=0, n=1):
+        SymbolicInt.__init__(self, var)
+        self._vf_src, self._vf_pos, self._vf_n = src, pos, n
+
+
+def _sym_int_repr(self):
+    if self < 0:
+        return "-" + (-self).__repr__()
+    n, thr = 1, 10
+    while self >= thr:
+        n += 1
+        thr *= 10
+    with NoTracing():
+        v = self.var
+        cps = []
+        for k in range(n - 1, -1, -1):
+            d = (v if k == 0 else v / z3.IntVal(10 ** k)) % 10
+            cps.append(DigitCP(z3.IntVal(48) + d, self, k, n))
+        STATS['digit_runs'] = STATS.get('digit_runs', 0) + 1
+        return bl.LazyIntSymbolicStr(cps)
+
+
+def _cp_list(s):
+    """python list of the code points of a LazyIntSymbolicStr / str, or None"""
+    if isinstance(s, str):
+        return [ord(c) for c in s]
+    if isinstance(s, bl.LazyIntSymbolicStr):
+        cps = s._codepoints
+        if isinstance(cps, (list, tuple)):
+            return list(cps)
+    return None
+
+
+def _full_run_at(cps, i):
+    """if cps[i:] starts with the complete digit run of one source, return (src, n)"""
+    c = cps[i]
+    if not isinstance(c, DigitCP) or c._vf_pos != c._vf_n - 1:
+        return None
+    n, src = c._vf_n, c._vf_src
+    if i + n > len(cps):
+        return None
+    for k in range(n):
+        d = cps[i + k]
+        if not (isinstance(d, DigitCP) and d._vf_src is src and d._vf_n == n and d._vf_pos == n - 1 - k):
+            return None
+    return src, n
+
+
+def _digit_source(val):
+    """the int x such that val is exactly str(x), else None (NoTracing)"""
+    cps = _cp_list(val)
+    if not cps:
+        return None
+    r = _full_run_at(cps, 0)
+    if r is None or r[1] != len(cps):
+        return None
+    return r[0]
+
+
+def _lazy_str_eq(self, other):
+    with NoTracing():
+        a, b = _cp_list(self), _cp_list(other)
+        plan = None
+        if a is not None and b is not None:
+            if len(a) != len(b):
+                return False
+            conds, i, ok = [], 0, True
+            while i < len(a):
+                ra, rb = _full_run_at(a, i), _full_run_at(b, i)
+                if ra is not None and rb is not None and ra[1] == rb[1]:
+                    if ra[0] is not rb[0]:
+                        conds.append(ra[0].var == rb[0].var)
+                    i += ra[1]
+                    continue
+                x, y = a[i], b[i]
+                xs, ys = isinstance(x, SymbolicInt), isinstance(y, SymbolicInt)
+                if not xs and not ys:
+                    if int(x) != int(y):
+                        return False
+                elif xs and ys:
+                    conds.append(x.var == y.var)
+                elif xs:
+                    conds.append(x.var == z3.IntVal(int(y)))
+                else:
+                    conds.append(y.var == z3.IntVal(int(x)))
+                i += 1
+            if not conds:
+                return True
+            STATS['text_eq'] = STATS.get('text_eq', 0) + 1
+            return bl.SymbolicBool(z3.And(*conds) if len(conds) > 1 else conds[0])
+    return _ORIG['str_eq'](self, other)
+
+
+def _lazy_str_ne(self, other):
+    r = _lazy_str_eq(self, other)
+    if r is NotImplemented:
+        return r
+    return not r
+
+
+_ORIG = {}
+
+
+# --------------------------------------------------------------------------
 # tagged hex:  int(binascii.b2a_hex(b), 16)  ==  int.from_bytes(b, 'big')
 # --------------------------------------------------------------------------
 class HexOfBytes(object):
@@ -301,6 +468,11 @@ def _my_int(val=0, base=_MISSING):
             kind = 2
         elif hasattr(type(val), '__vf_int__'):
             kind = 3
+        elif isinstance(val, bl.LazyIntSymbolicStr) and (base is _MISSING or (type(base) is int and base == 10)):
+            src = _digit_source(val)
+            if src is not None:
+                STATS['int_of_str'] = STATS.get('int_of_str', 0) + 1
+                return src
     if kind == 1:
         if base is not _MISSING:
             raise TypeError("int() can't convert non-string with explicit base")
@@ -423,6 +595,60 @@ def _my_repr(obj):
     return repr(obj)
 
 
+def _my_ord(c):
+    # ord(b) of a length-1 symbolic bytes object: its only octet (CrossHair realises)
+    with NoTracing():
+        sym = isinstance(c, BytesLike)
+    if sym:
+        if len(c) != 1:
+            raise TypeError('ord() expected a character, but string of length %d found' % len(c))
+        return c[0]
+    return ord(c)
+
+
+def _my_bytes_decode(self, *a, **kw):
+    # unbound form  bytes.decode(x)  with x symbolic: dispatch to the symbolic type's own decode
+    with NoTracing():
+        sym = isinstance(self, BytesLike)
+    if sym:
+        return self.decode(*a, **kw)
+    return bytes.decode(self, *a, **kw)
+
+
+def _ascii_case(self, lo, hi, delta, orig):
+    """upper()/lower() of a symbolic string whose code points are all ASCII:
+    c -> c + delta when lo <= c <= hi (CrossHair's own version walks the Unicode
+    tables with two solver forks per character)."""
+    n = len(self)
+    with NoTracing():
+        cps = self._codepoints
+        space = context_statespace()
+    items = [cps[i] for i in range(n)]
+    with NoTracing():
+        conds, out = [], []
+        for c in items:
+            if isinstance(c, SymbolicInt):
+                conds.append(c.var < 128)
+        if conds and not space.smt_fork(z3.And(*conds), probability_true=0.95):
+            items = None
+        else:
+            for c in items:
+                if isinstance(c, DigitCP):
+                    out.append(c)
+                elif isinstance(c, SymbolicInt):
+                    out.append(SymbolicInt(z3.If(z3.And(c.var >= lo, c.var <= hi), c.var + delta, c.var)))
+                else:
+                    c = int(c)
+                    if c >= 128:
+                        items = None
+                        break
+                    out.append(c + delta if lo <= c <= hi else c)
+        if items is not None:
+            STATS['ascii_case'] = STATS.get('ascii_case', 0) + 1
+            return bl.LazyIntSymbolicStr(out)
+    return orig(self)
+
+
 _LAYER = {
     int: _my_int,
     math.ceil: _my_ceil,
@@ -431,6 +657,9 @@ _LAYER = {
     repr: _my_repr,
     binascii.b2a_hex: _my_b2a_hex,
     binascii.hexlify: _my_hexlify,
+    int.from_bytes: _my_from_bytes,
+    bytes.decode: _my_bytes_decode,
+    ord: _my_ord,
 }
 
 _installed = False
@@ -446,6 +675,14 @@ def install():
     setup_binop(_bit_int_sym, {ops.and_, ops.or_, ops.xor})
     setup_binop(_truediv_sym_int, {ops.truediv})
     bl._BIN_OPS.clear()
+
+    SymbolicInt.__repr__ = _sym_int_repr
+    _ORIG['str_eq'] = bl.LazyIntSymbolicStr.__eq__
+    bl.LazyIntSymbolicStr.__eq__ = _lazy_str_eq
+    bl.LazyIntSymbolicStr.__ne__ = _lazy_str_ne
+    _up, _low = bl.LazyIntSymbolicStr.upper, bl.LazyIntSymbolicStr.lower
+    bl.LazyIntSymbolicStr.upper = lambda self: _ascii_case(self, 97, 122, -32, _up)
+    bl.LazyIntSymbolicStr.lower = lambda self: _ascii_case(self, 65, 90, 32, _low)
 
     _enter, _exit = core.Patched.__enter__, core.Patched.__exit__
 
